@@ -35,6 +35,43 @@ theorem C02_never_twice (fate : Item → Fate) (n : Nat) (rx : Bool) (items : Li
   simp only [everywhere, List.count_append] at this
   omega
 
+/-- **Exactly once.** Whenever the process ends with exit status 0 – whatever the thread count,
+the faults and the interleaving – every input has been either merged or rejected by its parser,
+exactly as often as it was given (`Perm`), nothing is left in the queue or in a worker's hands,
+merged items are exactly those whose parse succeeds and rejected ones those it fails for. -/
+theorem C02_exactly_once (fate : Item → Fate) (n : Nat) (hn : 1 ≤ n) (rx : Bool) (items : List Item)
+    (tr : List Step) (s : State) (h : Run fate (init n rx items) tr s) (hd : s.mainPc = .done 0) :
+    (s.merged ++ s.rejected).Perm items ∧ (∀ x ∈ s.merged, fate x = .ok) ∧
+      (∀ x ∈ s.rejected, fate x = .reject) := by
+  have hi := run_flowInv h (flowInv_init fate n rx items)
+  have hnn : s.n = n := (run_n h).1
+  obtain ⟨h1, h2, h3, h4⟩ := done0_all_accounted fate s hi (by omega) hd
+  refine ⟨?_, hi.mergedOk, hi.rejectedRej⟩
+  have := C02_conservation fate n rx items tr s h
+  simpa [everywhere, h1, h2, h3, h4] using this
+
+/-- Without faults the merged multiset is exactly the input multiset: no artifact dropped, none
+counted twice, for every number of workers and every interleaving. -/
+theorem C02_exactly_once_no_faults (n : Nat) (hn : 1 ≤ n) (rx : Bool) (items : List Item)
+    (tr : List Step) (s : State) (h : Run (fun _ => Fate.ok) (init n rx items) tr s)
+    (hd : s.mainPc = .done 0) : s.merged.Perm items := by
+  obtain ⟨hp, _, hr⟩ := C02_exactly_once (fun _ => Fate.ok) n hn rx items tr s h hd
+  have : s.rejected = [] := by
+    cases hrej : s.rejected with
+    | nil => rfl
+    | cons x xs => have := hr x (by simp [hrej]); cases this
+  simpa [this] using hp
+
+/-- The order in which the paths are given (the producer's order) is irrelevant to what is
+merged: two runs on permuted item lists that both end with status 0 merge the same multiset. -/
+theorem C02_path_order_irrelevant (fate : Item → Fate) (n : Nat) (hn : 1 ≤ n) (rx : Bool)
+    (items items' : List Item) (p : items.Perm items') (tr tr' : List Step) (s s' : State)
+    (h : Run fate (init n rx items) tr s) (h' : Run fate (init n rx items') tr' s')
+    (hd : s.mainPc = .done 0) (hd' : s'.mainPc = .done 0) :
+    (s.merged ++ s.rejected).Perm (s'.merged ++ s'.rejected) :=
+  ((C02_exactly_once fate n hn rx items tr s h hd).1.trans p).trans
+    (C02_exactly_once fate n hn rx items' tr' s' h' hd').1.symm
+
 /-- non-vacuity: a complete run for n = 2 and three items in which both workers take part -/
 example : ∃ s, replay (fun _ => .ok) (init 2 false [7, 8, 9])
     [.prodSend, .prodSend, .recv 1, .prodSend, .recv 0, .finish 0, .prodExit, .recv 0, .main,
